@@ -224,6 +224,37 @@ def guard(cfg, n_iter, i):
                         [SM + "_get_break_fun.break_fun", "jinns.utils._utils:_check_nan_in_pytree"])
 
 
+def batch_size_check(kind):
+    """_check_batch_size (Engine A, symbolic sizes): solve rejects an auxiliary generator whose batch size does not match
+    the main generator's (temporal / spatial / product), and only then"""
+    def run(seed):
+        import time, z3
+        from vf import pyvc
+        from vf.pyvc import Executor, Rec
+        t0 = time.time()
+        ex = Executor(["/repo/jinns/solver/_solve.py", "/repo/jinns/data/_DataGenerators.py"])
+        bt, bx, pb = z3.Ints("bt bx pb")
+        main = {"ODE": Rec("DataGeneratorODE", dict(temporal_batch_size=bt)),
+                "statio": Rec("CubicMeshPDEStatio", dict(omega_batch_size=bx)),
+                "nonstatio": Rec("CubicMeshPDENonStatio", dict(omega_batch_size=bx, temporal_batch_size=bt))}[kind]
+        expected = {"ODE": bt, "statio": bx, "nonstatio": bx * bt}[kind]
+        outs = ex.call_function("_check_batch_size", [Rec("Other", dict(param_batch_size=pb)), main, "param_batch_size"],
+                                pc=[bt >= 1, bx >= 1, pb >= 1])
+        for o in outs:
+            cond = pb != expected if o.kind == "raise" else pb == expected
+            st, model = pyvc.prove(cond, list(o.pc))
+            if st != "unsat":
+                return dict(status="violated" if st == "sat" else "undecided", failure="value", backend="pyvc+z3",
+                            detail=f"_check_batch_size[{kind}]: path ending in {o.kind} is reachable with {model}",
+                            replay=dict(native_disagrees=False, solver_output=str(model)))
+        kinds = sorted({o.kind for o in outs})
+        ok = kinds == ["raise", "return"] and all(o.value == "ValueError" for o in outs if o.kind == "raise")
+        return dict(status="discharged" if ok else "violated", backend="pyvc+z3", failure="value", solver_s=time.time() - t0,
+                    detail="" if ok else f"outcomes {kinds}", sample=f"raises ValueError iff batch size != {expected}",
+                    replay=dict(native_disagrees=False))
+    return FnObligation(f"C07/_check_batch_size/ensures.raises_iff_mismatch[{kind}]", run, [SM + "_check_batch_size"])
+
+
 def configs(tier):
     base = dict(opt="opaque", param=False, obs=False, tracked="none", ost=False)
     cs = [base, dict(base, opt="sgd"), dict(base, param=True, obs=True, tracked="both"), dict(base, tracked="a", ost=True),
@@ -242,4 +273,6 @@ def obligations(tier):
     for n_iter in n_iters:
         for i in range(n_iter + 1):
             obs.append(guard(configs(tier)[0], n_iter, i))
+    for kind in ("ODE", "statio", "nonstatio"):
+        obs.append(batch_size_check(kind))
     return obs
